@@ -88,3 +88,22 @@ Theorem c20_unsubscribe_stops : forall st h s,
               forall s', find_csub st' h = Some s' -> cs_open s' = false.
 Proof. exact unsubscribe_stops. Qed.
 Print Assumptions c20_unsubscribe_stops.
+
+(* static metadata over VISS: what the tree says about a signal is what was registered (entry type, data type,
+   allowed list - the numbers the gRPC metadata projections are built from), for exactly the signals whose path
+   starts with the requested text *)
+Theorem c20_metadata_sound : forall st path line,
+  In line (tl (viss_metadata st path)) ->
+  exists id e, In (id, e) (entries (st_db st)) /\ bytes_prefix path (m_path (e_meta e)) = true /\
+               line = [205; id; kuksa_entry_type (m_etype (e_meta e)); kuksa_data_type (m_dtype (e_meta e))]
+                      ++ enc_opt_val (m_allowed (e_meta e)).
+Proof. exact viss_metadata_sound. Qed.
+Print Assumptions c20_metadata_sound.
+
+Theorem c20_metadata_complete : forall st path id e,
+  In (id, e) (entries (st_db st)) -> bytes_prefix path (m_path (e_meta e)) = true ->
+  In ([205; id; kuksa_entry_type (m_etype (e_meta e)); kuksa_data_type (m_dtype (e_meta e))]
+      ++ enc_opt_val (m_allowed (e_meta e))) (tl (viss_metadata st path)).
+Proof. exact viss_metadata_complete. Qed.
+Print Assumptions c20_metadata_complete.
+
